@@ -195,6 +195,12 @@ func c03GenRec(r *rand.Rand) c03Rec {
 		}
 		body = string(b)
 	}
+	if r.Intn(40) == 0 {
+		// long messages around the sizes a daemon or a reader might treat specially (the daemon copies a long
+		// line in 16 KiB pieces; a frame body also holds the timestamp and a space)
+		n := pick(r, []int{4095, 4096, 16352, 16353, 16354, 16384, 16385, 32768, 65535, 65536, 70000})
+		body = strings.Repeat(pick(r, []string{"x", "ab ", "\n"}), n)[:n]
+	}
 	typ := byte(1 + r.Intn(2))
 	if r.Intn(20) == 0 {
 		typ = 0
